@@ -1,10 +1,13 @@
 #!/bin/sh
 # run every seeded change against the check of the property it breaks (and C04); prints a table
-cd /verif
-for d in /verif/seeded/*/; do
+R="${VERIF_REPO:-/repo}"
+cd "$(dirname "$0")/.."
+V=$(pwd)
+for d in $V/seeded/*/; do
   id=$(basename $d)
   pid=$(python3 -c "import json;print(json.load(open('$d/meta.json'))['breaks_property'])")
-  if ! git -C /repo apply --check $d/patch.diff 2>/dev/null; then echo "$id $pid PATCH-DOES-NOT-APPLY"; continue; fi
+  if grep -q '"neutralised"' $d/meta.json; then echo "$id $pid NEUTRALISED-BY-A-FIX"; continue; fi
+  if ! git -C "$R" apply --check $d/patch.diff 2>/dev/null; then echo "$id $pid PATCH-DOES-NOT-APPLY"; continue; fi
   out=$(tools/seedtest.sh $d/patch.diff $pid 2>&1)
   if echo "$out" | grep -q "^VIOLATION"; then
      v=$(echo "$out" | grep "^VIOLATION" | head -1 | sed 's/replay=[^ ]*//')
